@@ -186,6 +186,7 @@ structure Req where
   items      : List Item           -- map: elements not yet pulled
   mapSem     : Sem
   nc         : Nat                 -- ghost: `num_concurrent`, the initial value of `mapSem`
+  n0         : Nat                 -- ghost: invocations requested (apply/start) resp. length of the iterable (map)
   acquired   : Bool                -- map: `semaphore_acquired`
   pulled     : Nat
   created    : Nat
